@@ -142,9 +142,9 @@ type JLOpts struct {
 	CfgTTL     int // -1 unset (3600)
 	CfgFD      int // -1 unset (900), 0 disabled
 	Forbid     bool
-	Foreign    bool // a foreign pod occupies the name of attempt 0 of index 0
-	PodLagFree bool // allow the Pod cache to lag behind the Job cache (cache-skew family)
-	Fresh      bool // random scheduler: a pass only begins when both caches are up to date
+	Foreign    bool   // a foreign pod occupies the name of attempt 0 of index 0
+	PodLagFree bool   // allow the Pod cache to lag behind the Job cache (cache-skew family)
+	Fresh      bool   // random scheduler: a pass only begins when both caches are up to date
 	Slow       bool   // random scheduler: kubelets are slow to start containers (tasks stay Pending for long)
 	Flaky      bool   // random scheduler: nodes go down often
 	Delivered  bool   // the Job's add event is already delivered when the run starts (initial state of spec/JobLife.tla)
@@ -763,9 +763,9 @@ type JLSummary struct {
 	Labels      map[string]int `json:"labels"`
 	DrainFailed int            `json:"drain_failed"`
 	Faults      int            `json:"faults"`
-	Compared    int            `json:"compared"`  // replayed steps whose resulting abstract state was compared with the specification's
-	Drift       int            `json:"drift"`     // ... and differed
-	DriftAt     map[string]int `json:"drift_at"`  // by step label (first drift of a run only)
+	Compared    int            `json:"compared"` // replayed steps whose resulting abstract state was compared with the specification's
+	Drift       int            `json:"drift"`    // ... and differed
+	DriftAt     map[string]int `json:"drift_at"` // by step label (first drift of a run only)
 	DriftSample []string       `json:"drift_sample"`
 }
 
